@@ -3,10 +3,10 @@ Require Import Parser ParserShape Render RenderTotal RenderParamTotal RenderGuar
 From Coq Require Import List Ascii String ZArith Bool Lia Arith.
 Import ListNotations.
 
-Lemma leaf_gok e : ParserShape.is_leaf e = true -> gok e = true.
+Lemma leaf_gok e : Shape.is_leaf e = true -> gok e = true.
 Proof. destruct e as [l op r b f]. destruct op, l, r; cbn; try discriminate; reflexivity. Qed.
 
-Lemma leaves_all (l : list expr) : forallb ParserShape.is_leaf l = true ->
+Lemma leaves_all (l : list expr) : forallb Shape.is_leaf l = true ->
   (fix all (l : list expr) : bool := match l with [] => true | x :: r => gok x && all r end) l = true.
 Proof.
   induction l as [|x xs IH]; cbn [forallb]; auto. intros H. apply andb_true_iff in H. destruct H as [Hx Hxs].
@@ -14,7 +14,7 @@ Proof.
 Qed.
 
 (* a node that Validate calls a literal expression and that the decoder built is leaf-built *)
-Lemma literal_expr_leaf x : dsh x = true -> is_literal_expr (VExp x) = true -> ParserShape.is_leaf x = true.
+Lemma literal_expr_leaf x : dsh x = true -> is_literal_expr (VExp x) = true -> Shape.is_leaf x = true.
 Proof.
   destruct x as [l op r b f]. cbn [dsh is_literal_expr e_op e_left]. intros D L.
   apply andb_true_iff in L. destruct L as [Lo Ll].
@@ -25,7 +25,7 @@ Qed.
 Theorem dsh_validate_gok : forall n e, esize e <= n -> dsh e = true -> validate e = true -> gok e = true.
 Proof.
   induction n as [|n IH]; intros e Hs D V; [destruct e; cbn in Hs; lia|].
-  destruct (ParserShape.is_leaf e) eqn:Lf; [apply leaf_gok; exact Lf|].
+  destruct (Shape.is_leaf e) eqn:Lf; [apply leaf_gok; exact Lf|].
   destruct e as [l op r bo fu]. cbn in Hs. cbn [dsh] in D. rewrite Lf in D. cbn [orb] in D.
   apply andb_true_iff in D. destruct D as [Dl Dr].
   cbn [validate] in V. apply andb_true_iff in V. destruct V as [Vn Vc]. apply andb_true_iff in Vc. destruct Vc as [Vl Vr].
